@@ -337,6 +337,7 @@ class Interp:
         self.loop_stack = []
         self.frames = []       # per-call exit lists
         # optional observers (taint / sink rules): called with the live state so that the path condition is visible
+        self.inline_setters = False   # inline property setters of self_cls on `self.<prop> = v`
         self.obs_store = None  # fn(target_term, value, st, node)      attribute / subscript stores
         self.obs_exit = None   # fn(kind, value, st, node)              return / raise
         self.obs_call = None   # fn(name, base_term|None, args, kwargs, st, node)   every call evaluated
@@ -744,6 +745,14 @@ class Interp:
                     return
             if self.obs_store is not None:
                 self.obs_store(('attr', term(base), target.attr), v, st, target)
+            if self.self_cls and self.inline_setters and isinstance(base, S) and base.t == ('var', 'self') and self.depth < self.max_depth:
+                q = self.repo.resolve_method(self.self_cls, target.attr + '.setter')
+                if q:
+                    try:
+                        self.inline_call(self.repo.func(q), q.partition(':')[0], [v], {}, st, self_val=base)
+                    except _AlwaysRaises:
+                        raise
+                    return
             st.heap[('attr', term(base), target.attr)] = v
             return
         if isinstance(target, ast.Subscript):
@@ -840,6 +849,12 @@ class Interp:
         key = ('attr', term(base), node.attr)
         if key in st.heap:
             return st.heap[key]
+        if self.self_cls and self.inline_setters and isinstance(base, S) and base.t == ('var', 'self') and self.depth < self.max_depth:
+            q = self.repo.resolve_method(self.self_cls, node.attr)
+            if q:
+                fn = self.repo.func(q)
+                if any(isinstance(d, ast.Name) and d.id == 'property' for d in fn.decorator_list):
+                    return self.inline_call(fn, q.partition(':')[0], [], {}, st, self_val=base)
         if self.attr_hook is not None:
             r = self.attr_hook(self, base, node.attr, st)
             if r is not NotImplemented:
